@@ -88,6 +88,8 @@ def strip_comments(src):
     return src
 
 
+EXTRA_PROP_MODULES = {"C17": [("C17e", "C17e")]}
+
 FORBIDDEN = re.compile(r"\bsorry\b|\badmit\b|^axiom |native_decide|bv_decide|implemented_by|\bunsafe |maxHeartbeats 0", re.M)
 
 
@@ -114,13 +116,21 @@ def lean_check(prop, thorough=False):
         if bad:
             return dict(ok=False, msg="forbidden token(s): " + "; ".join(bad), theorems=[])
         os.makedirs(BUILD, exist_ok=True)
-        af = os.path.join(BUILD, "audit_%s.lean" % prop)
-        with open(af, "w") as f:
-            f.write("import RedoModel.AuditCmd\nimport RedoModel.Props.%s\n#audit %s\n" % (prop, prop))
-        r = sh(["lake", "env", "lean", af], cwd=LEAN, stdout=subprocess.PIPE, stderr=subprocess.STDOUT, text=True)
-        if r.returncode != 0:
-            return dict(ok=False, msg="audit failed:\n" + r.stdout[-3000:], theorems=[])
-        thms = [json.loads(l[6:]) for l in r.stdout.splitlines() if l.startswith("AUDIT ")]
+        thms = []
+        # property files that cannot be imported together with the main one (name clashes between older lemma files)
+        # are built and audited on their own: module -> namespace
+        for mod, ns in [(prop, prop)] + EXTRA_PROP_MODULES.get(prop, []):
+            if mod != prop:
+                r = sh(["lake", "build", "RedoModel.Props." + mod], cwd=LEAN, stdout=subprocess.PIPE, stderr=subprocess.STDOUT, text=True)
+                if r.returncode != 0:
+                    return dict(ok=False, msg="lake build failed:\n" + r.stdout[-6000:], theorems=[])
+            af = os.path.join(BUILD, "audit_%s.lean" % mod)
+            with open(af, "w") as f:
+                f.write("import RedoModel.AuditCmd\nimport RedoModel.Props.%s\n#audit %s\n" % (mod, ns))
+            r = sh(["lake", "env", "lean", af], cwd=LEAN, stdout=subprocess.PIPE, stderr=subprocess.STDOUT, text=True)
+            if r.returncode != 0:
+                return dict(ok=False, msg="audit failed:\n" + r.stdout[-3000:], theorems=[])
+            thms += [json.loads(l[6:]) for l in r.stdout.splitlines() if l.startswith("AUDIT ")]
         if thorough:
             rc = sh(["lake", "env", "leanchecker", "RedoModel.Props." + prop], cwd=LEAN,
                     stdout=subprocess.PIPE, stderr=subprocess.STDOUT, text=True)
